@@ -39,6 +39,7 @@ struct Params {
 	// transport / file faults, per 1024 calls
 	unsigned p_short_read = 0, p_short_write = 0, p_eintr = 0, p_spurious = 0;
 	unsigned p_file_short = 0, p_file_eintr = 0;
+	size_t file_short_min = 2;      // file reads/writes shorter than this are never shortened (E7: the 16-byte session header is atomic)
 	unsigned p_cv_spurious = 0;
 	size_t default_chan_cap = 65536;
 	bool text_trace = false;
